@@ -78,7 +78,11 @@ def make(name, rng):
             d = rng.choice([1, 2])
             return dict(est=est, gen=lambda n: (cc_rows(rng, n, d), None), pf=True, sup=False)
         if name == "CVIART":
-            est = artlib.CVIART(_fz(rng), validity=rng.choice([1, 2, 3]))
+            base = _fz(rng)
+            if rng.random() < 0.3:      # a base module whose clusters are groups of categories
+                r = rng.choice([0.75, 0.875])
+                base = artlib.DualVigilanceART(_fz(rng, rho=r), rho_lower_bound=float(rng.choice([0.0, 0.125, 0.25])))
+            est = artlib.CVIART(base, validity=rng.choice([1, 2, 3]))
             d = 2
             return dict(est=est, gen=lambda n: (cc_rows(rng, max(n, 3), d), None), pf=False, sup=False)
         if name == "iCVIFuzzy":
@@ -91,7 +95,13 @@ def make(name, rng):
             est = artlib.SimpleARTMAP(_fz(rng))
             d = rng.choice([1, 2])
             ncls = rng.choice([1, 2, 3])
-            return dict(est=est, gen=lambda n: (cc_rows(rng, n, d), np.array([rng.randrange(ncls) for _ in range(n)])), pf=True, sup=True)
+            names = rng.choice([[0, 1, 2], [0, 300, 1], [5, 70000, 2], [1, 256, 0]])      # class labels need not be small
+            late = rng.random() < 0.6        # the last class only turns up in the second half of the stream
+
+            def gen(n):
+                ys = [names[rng.randrange(max(1, ncls - 1) if (late and i < (n + 1) // 2) else ncls)] for i in range(n)]
+                return cc_rows(rng, n, d), np.array(ys)
+            return dict(est=est, gen=gen, pf=True, sup=True)
         if name in ("SAM_DV", "ARTMAP_DV"):
             rho = rng.choice([0.5, 0.75, 0.875])
             dv = artlib.DualVigilanceART(_fz(rng, rho=rho), rho_lower_bound=float(rng.choice([0.0, 0.125, 0.25, 0.375])))
@@ -177,7 +187,11 @@ def views(name, est):
     elif name == "Topo":
         out.append(("TopoART", est.labels_, len(est.W), None, est.sample_counter_, False, True, est.n_clusters))
     elif name == "CVIART":
-        out.append(("CVIART", est.labels_, len(est.W), est.base_module.weight_sample_counter_, None, True, False, est.n_clusters))
+        if type(est.base_module).__name__ == "DualVigilanceART":
+            # labels_ are cluster labels: the clusters are the distinct values of the base module's map
+            out.append(("CVIART(DualVigilanceART)", est.labels_, est.base_module.n_clusters, None, None, False, False, est.n_clusters))
+        else:
+            out.append(("CVIART", est.labels_, len(est.W), est.base_module.weight_sample_counter_, None, True, False, est.n_clusters))
     elif name == "iCVIFuzzy":
         out.append(("iCVIFuzzyART", est.labels_, len(est.W), est.weight_sample_counter_, est.sample_counter_, True, False, est.n_clusters))
     elif name == "SimpleARTMAP":
@@ -200,7 +214,7 @@ def gen_zoo_history(rng, name, veto_ok=False):
     if z["pf"]:
         shape = rng.choice(["fit", "pf", "fit+fit", "fit+pf", "pf1"])
     else:
-        shape = rng.choice(["fit", "fit+fit"])
+        shape = rng.choice(["fit", "fit+fit", "fit+pf"])      # the partial_fit may be refused - then nothing may change
     idx = list(range(nrows(X)))
     ops = []
     if shape == "fit":
@@ -243,8 +257,21 @@ def book_oracle_all(rng, n):
         for i, (op, ix) in enumerate(ops):
             Xi = take(X, ix)
             yi = None if y is None else np.array(np.asarray(y)[ix])
+            if name == "SimpleARTMAP" and yi is not None:
+                # targets arrive in the narrowest dtype that holds the batch (uint8 first, wider later is common)
+                yi = yi.astype(np.min_scalar_type(int(yi.max())) if rng.random() < 0.6 else yi.dtype)
             try:
                 call(est, op, Xi, yi, mode, eps)
+            except NotImplementedError:
+                # a refusal (CVIART / iCVIFuzzyART offer no incremental training): the book-keeping is as before the call
+                for (lab, labels, nW, wsc, sc, chk, minus1, ncl) in views(name, est):
+                    why = c05.book_ok(np.asarray(labels), nW, wsc if wsc is not None else [], sc if sc is not None else presented,
+                                      presented, check_counters=chk and wsc is not None, allow_minus1=minus1)
+                    if why:
+                        fails.append({"signature": f"{lab}.{op}/book", "text": f"{lab}: {op} refused (NotImplementedError) but left {why}",
+                                      "replay": describe(name, z, X, y, ops, mode, eps, i)})
+                        break
+                break
             except Exception as e:
                 break          # totality is C04's / C06's business
             presented = len(ix) if op == "fit" else presented + len(ix)
@@ -290,7 +317,7 @@ def canon(est, depth=0):
     d = dict(est.__dict__)
     for k in sorted(d):
         v = d[k]
-        if k in ("data", "X", "iCVI", "index", "classes_"):
+        if k in ("data", "X", "iCVI", "index"):
             continue
         if k == "params":
             out[k] = {kk: (canon(vv, depth + 1) if hasattr(vv, "get_params") else (arr(vv) if isinstance(vv, (np.ndarray, list)) else vv))
